@@ -350,16 +350,7 @@ def translate(ctx):
 
 
 def descr(c):
-    d = C01.descr(c)
-    if c.get('cls') == 'SliceProjectionOp' and c.get('rot') == 'quat':
-        q = np.array(c['quat'], dtype=np.float64)
-        q = q / np.linalg.norm(q)
-        x, y, z, w = q
-        m = np.array([[1 - 2 * (y * y + z * z), 2 * (x * y - z * w), 2 * (x * z + y * w)], [2 * (x * y + z * w), 1 - 2 * (x * x + z * z), 2 * (y * z - x * w)],
-                      [2 * (x * z - y * w), 2 * (y * z + x * w), 1 - 2 * (x * x + y * y)]])
-        # a signed permutation matrix other than a diagonal one: the configuration of open finding KF-C20-1 (NaN rows / halved borders)
-        d['axis_permuting'] = bool(np.all(np.minimum(np.abs(m), np.abs(np.abs(m) - 1)) < 1e-9) and not np.allclose(np.abs(m), np.eye(3)))
-    return d
+    return C01.descr(c)     # incl. `axis_permuting` for SliceProjectionOp (open finding KF-C20-1)
 
 
 FAMILIES = [
